@@ -1,1 +1,55 @@
-import RosedVerif.Spec.Pos
+/-
+C05 — Committing a sub-editor rewrites exactly the selected region.
+-/
+import RosedVerif.Model.InstAFacts
+import RosedVerif.Model.LinesLemmas
+namespace RosedVerif.Props
+open RosedVerif
+
+/-- Commit of a sub-editor cut at atoms [i, j) of its parent replaces exactly that region with the
+sub-editor's CURRENT text `t`, whatever it has become: everything before and after is unchanged and
+in place (hence valid UTF-8 out whenever the inputs are) -/
+theorem C05_commit (t : List Int) (o : Options Int) (parent : Editor Int) (i j : Nat)
+    (hij : i ≤ j) (hj : j ≤ parent.text.length) :
+    (Editor.sub t o parent (byteLen cxA (parent.text.take i)) (byteLen cxA (parent.text.take j))).commit cxA =
+      .ok (parent.withText (parent.text.take i ++ t ++ parent.text.drop j)) :=
+  Editor.commit_sub utf8Len_pos t o parent i j hij hj
+
+/-- committing a root Editor is the identity -/
+theorem C05_commit_root (t : List Int) (o : Options Int) :
+    (Editor.root t o).commit cxA = .ok (Editor.root t o) := rfl
+
+/-- character selection followed by ANY change of the selection's text and Commit: the parent's text
+with exactly the selected clusters replaced — for all positions, including empty selections at or
+beyond the end -/
+theorem C05_chars_commit (ed : Editor Int) (s e : Int) (t' : List Int) :
+    ∃ sub, ed.chars cxA s e = .ok sub ∧
+      (sub.withText t').commit cxA =
+        .ok (ed.withText ((Spec.selectClusters cxA ed.text s e).1 ++ t' ++
+          (Spec.selectClusters cxA ed.text s e).2.2)) :=
+  Editor.chars_commit cxA_WF ed s e t'
+
+/-- every sub-editor produced by Chars or Lines is cut at atom (hence UTF-8 and, for Chars, cluster)
+boundaries of its parent, and committing it with any text and options is total -/
+theorem C05_chars_cut (ed : Editor Int) (s e : Int) :
+    ∃ r, ed.chars cxA s e = .ok r ∧ ed.CutAtAtoms cxA r := chars_total' cxA_Sane ed s e
+
+theorem C05_lines_cut (ed : Editor Int) (s e : Int) :
+    ∃ r, ed.linesSel cxA s e = .ok r ∧ ed.CutAtAtoms cxA r := linesSel_total' cxA_Sane ed s e
+
+theorem C05_commit_total (ed r : Editor Int) (h : ed.CutAtAtoms cxA r) (t' : List Int) (o' : Options Int) :
+    ∃ r', ((r.withText t').withOpts o').commit cxA = .ok r' := commit_total_of_cut cxA_Sane ed r h t' o'
+
+/-- an unedited selection commits back to the original text -/
+theorem C05_unedited (ed : Editor Int) (s e : Int) :
+    ∃ sub, ed.chars cxA s e = .ok sub ∧ sub.commit cxA = .ok ed := by
+  obtain ⟨sub, h1, h2⟩ := Editor.chars_commit cxA_WF ed s e (Spec.selectClusters cxA ed.text s e).2.1
+  refine ⟨sub, h1, ?_⟩
+  have hsub : sub.withText (Spec.selectClusters cxA ed.text s e).2.1 = sub := by
+    rw [Editor.chars_eq_spec cxA_WF ed s e] at h1
+    cases h1; rfl
+  rw [hsub, selectClusters_concat cxA_WF] at h2
+  rw [h2]
+  cases ed <;> rfl
+
+end RosedVerif.Props
